@@ -97,7 +97,22 @@ static void run_power(Json& js, vh::Rng& rng, long budget) {
             xr[i] = rng.gauss();
             xc[i] = cmplx_t(rng.gauss(), rng.gauss());
         }
-        const arr_real pxx = cplx ? welch(xc, win, noverlap, nfft, SpectrumType::Psd).pxx : welch(xr, win, noverlap, nfft, SpectrumType::Psd).pxx;
+        // half of the cases: the window lives in a buffer that held another window (same length, other coefficients) during an
+        // earlier call with the same scaling - analysis code refills one buffer per family
+        arr_real wbuf(winlen);
+        if (rng.coin()) {
+            std::string other;
+            const arr_real w0 = make_win(rng, winlen, &other);
+            for (int i = 0; i < winlen; ++i) {
+                wbuf[i] = 0.25 + 0.5 * w0[i] * w0[i];
+            }
+            const auto decoy = cplx ? welch(xc, wbuf, noverlap, nfft, SpectrumType::Psd) : welch(xr, wbuf, noverlap, nfft, SpectrumType::Psd);
+            (void)decoy;
+        }
+        for (int i = 0; i < winlen; ++i) {
+            wbuf[i] = win[i];
+        }
+        const arr_real pxx = cplx ? welch(xc, wbuf, noverlap, nfft, SpectrumType::Psd).pxx : welch(xr, wbuf, noverlap, nfft, SpectrumType::Psd).pxx;
         LD wp = 0;
         for (int i = 0; i < winlen; ++i) {
             wp += (LD)win[i] * win[i];
@@ -206,7 +221,8 @@ static void run_cohere(Json& js, vh::Rng& rng, long budget) {
         const int nfft = 1 << (int)rng.range(3, 10);
         const int winlen = (int)rng.range(std::max(3, nfft / 4), nfft);
         const int noverlap = (int)rng.range(0, winlen - 1);
-        const int N = winlen + (int)rng.range(0, 30) * (winlen - noverlap);
+        // whole segments plus a partial one at the end of the record (up to a stride short of the next segment)
+        const int N = winlen + (int)rng.range(0, 30) * (winlen - noverlap) + (rng.coin() ? (int)rng.range(0, winlen - noverlap - 1) : 0);
         const int kind = (int)rng.range(0, 3);
         static const char* KN[] = {"scaled", "random", "filtered", "dynamic"};
         arr_real x(N), y(N);
